@@ -95,6 +95,7 @@ J conc_to_json(const ConcCase& c) {
   k.set("pct_len", c.sched.pct_len);
   k.set("disabled_kinds", static_cast<int64_t>(c.sched.disabled_kinds));
   k.set("factory_yields", c.factory_yields);
+  k.set("factory_reenters", c.factory_reenters);
   k.set("nslots", c.nslots);
   k.set("step_cap", c.sched.step_cap);
   j.set("knobs", k);
@@ -133,6 +134,7 @@ bool conc_from_json(const J& j, ConcCase* c) {
   c->sched.disabled_kinds = static_cast<uint32_t>(k.geti("disabled_kinds"));
   c->sched.step_cap = static_cast<int>(k.geti("step_cap", 200000));
   c->factory_yields = static_cast<int>(k.geti("factory_yields", 1));
+  c->factory_reenters = static_cast<int>(k.geti("factory_reenters", 0));
   c->nslots = static_cast<int>(k.geti("nslots", 4));
   c->sched.schedule.clear();
   for (const J& v : j.at("schedule").a) c->sched.schedule.push_back(static_cast<int>(v.i));
@@ -361,6 +363,8 @@ ConcCase gen_conc(const std::string& property, const std::string& tier, uint64_t
     }
     c.tasks.push_back(ops);
   }
+  if (!is_c14 && wl.chance(0.06)) c.factory_reenters = static_cast<int>(wl.range(1, 4));
+  if (c.factory_reenters == 3) { c.tz_env_zone = -2; }
   if (wl.chance(0.004)) {
     Op b; b.k = O_BULK;
     b.a = wl.pick(std::vector<int64_t>{70, 300, 1100, 2200, 4300});
@@ -510,6 +514,13 @@ struct Exec {
     else if (c.tz_env_zone >= 0) env.vars["TZ"] = std::string(c.tz_env_colon ? ":" : "") + fullname(c.tz_env_zone);
     factory_reset(&cat, static_cast<int>(c.tasks.size()));
     fac.factory_yields = c.factory_yields;
+    fac.reenter = c.factory_reenters;
+    if (c.factory_reenters == 2) {
+      fac.reenter_name = "sim/" + salt + "/@nested";
+      CatEntry& ne = cat[fac.reenter_name];
+      ne.kind = CatEntry::BYTES; ne.bytes = shipped_bytes("Etc/UTC");
+    }
+    // with TZ unset, local_time_zone() inside the factory resolves to /etc/localtime, which the catalogue does not have
     fac.read_call_cap = 0;
   }
 
@@ -857,8 +868,10 @@ Outcome exec_conc(const ConcCase& c, bool keep_log, Stats* stats) {
         if (!fcall.in_task) viol("c20:wrong-thread", "factory invoked outside any caller task for " + fcall.name, "");
         else if (fcall.task_op != fcall.name) viol("c20:wrong-thread", "factory invoked for " + fcall.name + " by a task that is not loading it", "task is loading '" + fcall.task_op + "'");
         if (builtin_name(fcall.name, &off)) viol("c20:builtin-name", "factory invoked for built-in name " + fcall.name, "");
-        if (!fcall.in_flight_at_entry.empty()) {
-          const FactoryCall& other = fac.calls[static_cast<size_t>(fcall.in_flight_at_entry[0])];
+        int other_idx = -1;
+        for (int fi : fcall.in_flight_at_entry) if (fac.calls[static_cast<size_t>(fi)].task != fcall.task) { other_idx = fi; break; }   // an invocation nested inside the task's own is not concurrent
+        if (other_idx >= 0) {
+          const FactoryCall& other = fac.calls[static_cast<size_t>(other_idx)];
           viol("c20:factory-overlap", "factory entered for " + fcall.name + " while an invocation for " + other.name + " was in flight",
                "tasks " + std::to_string(other.task) + " and " + std::to_string(fcall.task) + (other.name == fcall.name ? " (same name)" : " (different names)"));
         }
